@@ -185,9 +185,43 @@ fn texts_of(f: &Fault, pool: &[Decl], c: &CaseSpec) -> Vec<String> {
     files
 }
 
+/// File names are data too: the set must be judged the same whatever the files are called.
+pub const NAME_POLICIES: [&str; 4] = ["plain", "names-differ-in-case-only", "same-name-in-different-directories", "one-name-is-a-prefix-of-the-other"];
+pub fn file_names(policy: usize, n: usize) -> Vec<String> {
+    (0..n)
+        .map(|i| match policy {
+            1 => {
+                // Unit.st, unit.st, UNIT.st, uNIT.st … : bit k of i decides the case of letter k
+                let base = "unit";
+                let nm: String = base.chars().enumerate().map(|(k, ch)| if (i + 1) >> k & 1 == 1 { ch.to_ascii_uppercase() } else { ch }).collect();
+                format!("/w/{}.st", nm)
+            }
+            2 => format!("/w/d{}/unit.st", i),
+            3 => format!("/w/u{}", ".st".repeat(i + 1)),
+            _ => format!("/w/f{}.st", i),
+        })
+        .collect()
+}
+
 fn run_case(f: &Fault, pool: &[Decl], c: &CaseSpec) -> Outcome {
+    let first = run_case_named(f, pool, c, 0);
+    if first.key.is_some() || c.files.iter().max().map(|m| m + 1).unwrap_or(0) < 2 || c.companions.len() > 2 {
+        return first;
+    }
+    for policy in 1..NAME_POLICIES.len() {
+        let mut o = run_case_named(f, pool, c, policy);
+        if let Some(k) = o.key.take() {
+            o.key = Some(format!("{}/{}", k, NAME_POLICIES[policy]));
+            o.what = format!("[file names {:?}] {}", file_names(policy, 3), o.what);
+            return o;
+        }
+    }
+    first
+}
+
+fn run_case_named(f: &Fault, pool: &[Decl], c: &CaseSpec, policy: usize) -> Outcome {
     let files = texts_of(f, pool, c);
-    let names: Vec<String> = (0..files.len()).map(|i| format!("/w/f{}.st", i)).collect();
+    let names: Vec<String> = file_names(policy, files.len());
     let r = crate::util::catch(|| {
         let mut p = FileBackedProject::new();
         for (n, t) in names.iter().zip(files.iter()) {
@@ -322,7 +356,7 @@ pub fn cases(deep: bool) -> (Vec<Fault>, Vec<Decl>, Vec<CaseSpec>) {
 pub fn run(ctx: &mut Ctx) {
     let thorough = ctx.tier.thorough();
     let (fs, pool, specs) = cases(thorough);
-    ctx.rule = "faulty unit (4 file-level faults, 7 independent declaration-level faults, same-name pairs: 10 declaration forms x {identical, different body, different case} and 18 cross-kind pairs) x companion lists (prefixes of a valid dependency chain, and companions that use the duplicated name) x every position of the faulty declarations x every set partition into files x every file iteration order; distinct = distinct (fault, companions, positions, partition, order)".into();
+    ctx.rule = "faulty unit (4 file-level faults, 7 independent declaration-level faults, same-name pairs: 10 declaration forms x {identical, different body, different case} and 18 cross-kind pairs) x companion lists (prefixes of a valid dependency chain, and companions that use the duplicated name) x every position of the faulty declarations x every set partition into files x every file iteration order, and for sets of at least two files with at most two companions also under three further file-naming policies (names that differ in case only, the same name in different directories, one name a prefix of the other); distinct = distinct (fault, companions, positions, partition, order)".into();
     ctx.bounds.insert("faults".into(), json!(fs.len()));
     ctx.bounds.insert("max_companions".into(), json!(if thorough { 5 } else { 4 }));
     ctx.bounds.insert("max_files".into(), json!(if thorough { 5 } else { 4 }));
@@ -343,7 +377,8 @@ pub fn run(ctx: &mut Ctx) {
         ctx.distinct(&format!("{}|{:?}|{:?}|{:?}|{:?}", c.fault, c.companions, c.sequence, c.files, c.order));
         ctx.outcome(o.class);
         if let Some(k) = &o.key {
-            ctx.fail(k, &o.what, json!({"fault": fs[c.fault].kind, "files": texts_of(&fs[c.fault], &pool, c), "order": c.order}));
+            let policy = NAME_POLICIES.iter().position(|p| k.ends_with(&format!("/{}", p))).unwrap_or(0);
+            ctx.fail(k, &o.what, json!({"fault": fs[c.fault].kind, "files": texts_of(&fs[c.fault], &pool, c), "order": c.order, "names": file_names(policy, 8)}));
         }
         if ctx.want_sample(i as u64, total) {
             ctx.sample(json!({"fault": fs[c.fault].kind, "files": texts_of(&fs[c.fault], &pool, c).iter().map(|t| crate::util::short(t, 120)).collect::<Vec<_>>(), "file_order": c.order, "outcome": o.class}));
@@ -399,8 +434,10 @@ pub fn run(ctx: &mut Ctx) {
             let dir = scratch.sub(&format!("s{}", i));
             let tmp = scratch.sub(&format!("t{}", i));
             let mut args = vec!["check".to_string()];
-            for (k, t) in files.iter().enumerate() {
-                let p = dir.join(format!("f{}.st", k));
+            let policy = (*i / stride) % NAME_POLICIES.len();
+            for (t, nm) in files.iter().zip(file_names(policy, files.len())) {
+                let p = dir.join(nm.trim_start_matches("/w/"));
+                std::fs::create_dir_all(p.parent().unwrap()).unwrap();
                 std::fs::write(&p, t).unwrap();
                 args.push(p.to_string_lossy().to_string());
             }
@@ -431,8 +468,12 @@ pub fn replay(case: &Value) -> Result<String, String> {
     let files: Vec<String> = case["files"].as_array().ok_or("files")?.iter().map(|x| x.as_str().unwrap_or("").to_string()).collect();
     let order: Option<Vec<usize>> = case["order"].as_array().map(|a| a.iter().map(|x| x.as_u64().unwrap_or(0) as usize).collect());
     let mut p = FileBackedProject::new();
+    let names: Vec<String> = match case["names"].as_array() {
+        Some(a) => a.iter().map(|x| x.as_str().unwrap_or("").to_string()).collect(),
+        None => file_names(0, files.len()),
+    };
     for (i, t) in files.iter().enumerate() {
-        p.change_text_document(&crate::front::fid(&format!("/w/f{}.st", i)), t.clone());
+        p.change_text_document(&crate::front::fid(&names[i]), t.clone());
     }
     ironplcc::verif::set_order(order);
     let r = p.semantic();
